@@ -103,6 +103,65 @@ def run_scenario(chooser: Any, prog_name: str, alphabet: list[str], budget: int,
             "cut": sorted((cut_plan or {}).items())}
 
 
+def concurrent_case(write_at_ms: int, ack_delay_ms: int, diag: str, alive: bool, read_tmo: float = 1.0
+                    ) -> dict[str, Any]:
+    """Two tasks of the caller share one connection: a read (op "bgread") is already blocked when another task
+    writes.  The gateway acknowledges the written message after ack_delay_ms; `diag`: a message for us is sent
+    "before" / "after" the acknowledgement, or not at all ("none").  D4 for the write and D2/D3 for the pending
+    read are judged by the same contract."""
+    rec = Recorder()
+    fed_names: list[str] = []
+
+    async def main() -> None:
+        gw = Gateway(rec)
+        tr = await connect(rec, gw, uri(act=1))
+        assert tr is not None
+        loop = asyncio.get_running_loop()
+
+        def feed(name: str) -> None:
+            if gw.wire is not None and not gw.wire.writer.is_closing():
+                fed_names.append(name)
+                gw.feed_named(name)
+
+        def on_diag(_f: Any) -> None:
+            if diag == "before":
+                loop.call_later(max(ack_delay_ms - 20, 0) / 1000, feed, "DiagUs")
+            loop.call_later(ack_delay_ms / 1000, feed, "Ack")
+            if diag == "after":
+                loop.call_later((ack_delay_ms + 100) / 1000, feed, "DiagUs")
+            if alive:
+                loop.call_later((ack_delay_ms + 10) / 1000, feed, "AliveReq")
+
+        gw.on_diag_out = on_diag
+
+        async def bg() -> str:
+            rec.add("Begin", op="bgread", tmo=int(round(read_tmo * 1000)), d=[])
+            res, d = "ok", []
+            try:
+                d = list(await tr.read(timeout=read_tmo))
+            except BaseException as e:  # noqa: BLE001
+                from harness.c06_doip import classify_exc
+                res = classify_exc(e)
+            rec.add("End", op="bgread", res=res, d=d)
+            return res
+
+        task = asyncio.ensure_future(bg())
+        await asyncio.sleep(write_at_ms / 1000)
+        await do_op(rec, tr, "write", 5.0, b"\x3e\x80")
+        await task
+        await drain_and_finish(rec, tr)
+
+    hang = False
+    try:
+        vloop.run(main(), horizon=600)
+    except (TimeoutError, vloop.BlockedForever):
+        hang = True
+        rec.ev.append({"e": "Final", "t": rec.ev[-1]["t"] if rec.ev else 0, "drained": False})
+        rec.ev.append({"e": "Hang", "t": rec.ev[-1]["t"]})
+    return {"cfg": CFG, "ev": rec.ev, "prog": f"concurrent-read-write/{write_at_ms}/{ack_delay_ms}/{diag}/{alive}",
+            "auto": False, "fed": fed_names, "hang": hang}
+
+
 def d1_case(act: int | None, ver: int | None, code: int | None, src: int = SRC, tgt: int = TGT) -> dict[str, Any]:
     rec = Recorder()
 
@@ -249,10 +308,12 @@ def run(tier: str, seed: int) -> Report:
             rep.extra["design_actions_never_taken"] = never
             if never:
                 raise Machinery(f"DoipConn: actions never taken in {c}: {never}")
-    for c, inv in (("devS12", "D5_AliveNotStalled"), ("devS13", "D2_InOrder")):
-        res = tlc.run_tlc("MC_DoipConn", f"MC_DoipConn_{c}.cfg", timeout=900)
+    # one worker: breadth-first search is deterministic, so is the first violation found (with several workers a
+    # stalled alive check also shows as an acknowledged write that fails, whichever state is reached first)
+    for c, inv in (("devS12", ("D5_AliveNotStalled", "D4_AckedWritesSucceed")), ("devS13", ("D2_InOrder",))):
+        res = tlc.run_tlc("MC_DoipConn", f"MC_DoipConn_{c}.cfg", timeout=900, workers=1)
         rep.add_tlc(res, f"MC_DoipConn_{c} (negative control)")
-        if res.violated != inv:
+        if res.violated not in inv:
             raise Machinery(f"negative control {c} did not violate {inv} (got {res.violated})")
     # ---- D1: routing activation
     acts = list(range(256))
@@ -301,6 +362,12 @@ def run(tier: str, seed: int) -> Report:
         for _ in range(nmulti):
             plan = {fi: (rnd.randint(1, 12), rnd.choice([0, 0, 5, 40])) for fi in range(1, nf + 1) if rnd.random() < 0.7}
             add(run_scenario(ListChooser(vec), prog, ALPHA_FULL, 3, auto=auto, cut_plan=plan), "multisplit")
+    # ---- two tasks of the caller on one connection: a read is pending while another task writes
+    for write_at in (100, 500):
+        for ack_delay in (0, 1, 50, 300):
+            for diag in ("none", "before", "after"):
+                for alive in (False, True):
+                    add(concurrent_case(write_at, ack_delay, diag, alive), "concurrent-read-write")
     # ---- spec -> code: simulated behaviours of the design layer replayed into the real transport
     nsim = 120 if tier == "quick" else 1500
     ndrift = 0
